@@ -242,6 +242,48 @@ LooseSlots(P, Q, ss, os, i) ==
              [] a.t = "l" -> Len(a.v) = Len(c.v) /\ \A k \in 1..Len(a.v) : Loose(P, Q, a.v[k], c.v[k], a.ty)
         /\ LooseSlots(P, Q, ss, os, i + 1)
 
+\* ------------------------------------------------ copies keep parentheses --
+\* "a syntactically identical copy of the code the metavariable stood for":
+\* SubstRel compares modulo ParenExpr because go/printer ADDS the parentheses
+\* an instantiated tree needs.  Parentheses that were part of the captured
+\* code must still be there: e -> a holds when a is e with parentheses added
+\* only (never removed).
+RECURSIVE AddedParensOnly(_, _), AddedParensSlots(_, _, _), ParenCore(_)
+\* gofmt collapses nested parentheses ((x)) to (x): what counts is whether a
+\* captured expression was parenthesised at all
+ParenCore(e) == IF e.k = "ParenExpr" THEN ParenCore(e.s[2].v[1]) ELSE e
+AddedParensOnly(e, a) ==
+  /\ (e.k = "ParenExpr" => a.k = "ParenExpr")
+  /\ LET ce == ParenCore(e)
+         ca == ParenCore(a)
+     IN ce.k = ca.k /\ Len(ce.s) = Len(ca.s) /\ AddedParensSlots(ce.s, ca.s, 1)
+AddedParensSlots(es, as, i) ==
+  \/ i > Len(es)
+  \/ /\ es[i].t = as[i].t
+     /\ CASE es[i].t = "z" -> TRUE
+          [] es[i].t = "a" -> es[i].a = as[i].a
+          [] es[i].t = "n" -> AddedParensOnly(es[i].v[1], as[i].v[1])
+          [] es[i].t = "l" -> Len(es[i].v) = Len(as[i].v) /\ \A k \in 1..Len(es[i].v) : AddedParensOnly(es[i].v[k], as[i].v[k])
+     /\ AddedParensSlots(es, as, i + 1)
+
+\* Walk the '+' pattern q and the (unstripped) output o together; at every
+\* metavariable the output must be the captured code with parentheses added
+\* only.  Where the shapes do not line up (elided runs, statement lists,
+\* loop headers) nothing is claimed here - SubstRel has judged the shape.
+RECURSIVE CopiesKept(_, _, _), CopiesKeptSlots(_, _, _, _)
+CopiesKept(q, b, o) ==
+  IF IsMeta(q) THEN Has(b, MetaName(q)) => AddedParensOnly(Get(b, MetaName(q))[1], o)
+  ELSE IF IsDots(q) \/ IsForDots(q) \/ IsStmts(q) THEN TRUE
+  ELSE IF o.k = "ParenExpr" /\ q.k # "ParenExpr" THEN CopiesKept(q, b, o.s[2].v[1])
+  ELSE IF q.k # o.k \/ Len(q.s) # Len(o.s) THEN TRUE
+  ELSE CopiesKeptSlots(q.s, o.s, 1, b)
+CopiesKeptSlots(qs, os, i, b) ==
+  \/ i > Len(qs)
+  \/ /\ (qs[i].t = "n" /\ os[i].t = "n") => CopiesKept(qs[i].v[1], b, os[i].v[1])
+     /\ (qs[i].t = "l" /\ os[i].t = "l" /\ Len(qs[i].v) = Len(os[i].v) /\ \A k \in 1..Len(qs[i].v) : ~IsDots(qs[i].v[k]))
+          => \A k \in 1..Len(qs[i].v) : CopiesKept(qs[i].v[k], b, os[i].v[k])
+     /\ CopiesKeptSlots(qs, os, i + 1, b)
+
 \* --------------------------------------------------------- the judge ----
 \* Walk input s and output o together from the root.  Result: a set of
 \* failure records [c |-> class, at |-> path] (empty = the case satisfies
@@ -273,7 +315,8 @@ Judge(P, Q, s, o, ty, path) ==
   LET r == PMatch(P, s) IN
   IF r.ok /\ Admissible(ty, TopKind(Q, r.b, s))
   THEN IF IsStmts(Q) THEN JudgeStmts(P, Q, s, o, r.b, path)
-       ELSE IF SubstRel(P, Q, Q, r.b, s, Strip(o)) THEN {}
+       ELSE IF SubstRel(P, Q, Q, r.b, s, Strip(o))
+            THEN (IF CopiesKept(Q, r.b, o) THEN {} ELSE F("wrongrepl", path))
             ELSE Unexplained(P, Q, s, o, path)
   ELSE IF s.k = "ParenExpr" /\ o.k # "ParenExpr" THEN Judge(P, Q, s.s[2].v[1], o, "Expr", Append(path, 2))
   ELSE IF s.k # o.k \/ Len(s.s) # Len(o.s) THEN F("collateral", path)
